@@ -68,15 +68,48 @@ func resolveGraph(w *World) *graphRoles {
 
 // structWrites: what a node writes of the graph structure.
 func (g *graphRoles) structWrites(info *types.Info, n ast.Node) (muts []string, resets bool) {
+	// a graph the function has just built (sub := NewDependencyGraph…) is not the receiver's graph
+	private := func(e ast.Expr) bool {
+		id := rootIdent(e)
+		if id == nil || theWorld == nil {
+			return false
+		}
+		o := info.Uses[id]
+		fi := theWorld.FuncAt(n.Pos())
+		if o == nil || fi == nil || isParamOrRecv(fi, info, o) {
+			return false
+		}
+		fresh := false
+		ast.Inspect(fi.Decl.Body, func(y ast.Node) bool {
+			if as, ok := y.(*ast.AssignStmt); ok && len(as.Lhs) == len(as.Rhs) {
+				for i, l := range as.Lhs {
+					if objOf(info, l) != o {
+						continue
+					}
+					if litOf(as.Rhs[i]) != nil {
+						fresh = true
+					}
+					if c, isC := unparen(as.Rhs[i]).(*ast.CallExpr); isC && isFreshConstructorCall(info, c) {
+						fresh = true
+					}
+				}
+			}
+			return true
+		})
+		return fresh
+	}
 	inspectNoLit(n, func(m ast.Node) bool {
 		switch s := m.(type) {
 		case *ast.AssignStmt:
 			for i, l := range s.Lhs {
 				t := unparen(l)
 				if ix, ok := t.(*ast.IndexExpr); ok {
-					if fv := fieldOf(info, ix.X); fv == g.nodes || fv == g.edges {
+					if fv := fieldOf(info, ix.X); (fv == g.nodes || fv == g.edges) && !private(ix.X) {
 						muts = append(muts, fv.Name())
 					}
+					continue
+				}
+				if private(t) {
 					continue
 				}
 				if fv := fieldOf(info, t); fv != nil {
